@@ -300,7 +300,8 @@ def rule_r6(chk):
     pred = km.func("predict")
     osb = km.func("one_step_back")
     loop = next(n for n in pred.body if isinstance(n, ast.For))
-    for inst in ({"na": 5, "ny": 3, "nu": 7, "nw": 2}, {"na": 7, "ny": 2, "nu": 3, "nw": 5}):
+    for inst in ({"na": 5, "ny": 3, "nu": 7, "nw": 2}, {"na": 7, "ny": 2, "nu": 3, "nw": 5}) + \
+            (({"na": 11, "ny": 13, "nu": 2, "nw": 17}, {"na": 2, "ny": 11, "nu": 13, "nw": 3}, {"na": 3, "ny": 7, "nu": 11, "nw": 13}) if chk.tier == "thorough" else ()):
         na, ny, nu, nw = inst["na"], inst["ny"], inst["nu"], inst["nw"]
         env = {"T": (na, na), "P": (na, nu), "K": (na,), "Z": (ny, na), "H": (ny, nw), "D": (ny,), "cov_u": (nu, nu), "cov_w": (nw, nw),
                "v_impact": (na,), "a1_prev": (na,), "Q1_prev": (na, na), "y1": (ny,), "u0": (nu,), "v0": (nu,), "w0": (nw,),
